@@ -9,7 +9,7 @@ at the end inspect_mem == RefSim memory on every touched/initialised address.
 import copy
 import hashlib
 
-from .. import gen, shrink, world
+from .. import gen, shrink, world, common
 from ..common import Violation, mask
 from ..netlist import script_shape
 from ..refsim import DoubleWrite
@@ -31,7 +31,7 @@ TIERS = {
 def gen_case(streams, tier):
     g = streams['gen']
     big = tier == 'thorough' and g.random() < 0.3
-    cfg = gen.make_cfg(nets=(3, 40) if big else (3, 22))
+    cfg = gen.make_cfg(nets=(3, 40) if big else (3, 22), rom_holes_prob=0.4)
     script = gen.gen_script(g, cfg)
     script, stage = gen.maybe_stage(g, script, 0.2, ['sim', 'fast', 'export', 'analysis', 'optimized_copy', 'copy'])
     ncyc = streams['inputs'].randint(1, 12)
@@ -50,6 +50,12 @@ def gen_case(streams, tier):
     if f.random() < 0.3:
         case['faults'].append({'kind': 'foreign_activity', 'at': f.randrange(ncyc),
                                'seed': f.getrandbits(32)})
+    one_bit = [w['n'] for w in script['wires'] if w['w'] == 1 and w['k'] in 'WRI']
+    # an rtl_assert on some 1-bit wire: when it fires the caller catches the exception and
+    # keeps stepping (the asserting step is a complete cycle)
+    case['assert_wire'] = f.choice(one_bit) if one_bit and f.random() < 0.25 else None
+    case['cycles'], hole_faults = gen.split_rom_holes(script, case['init'], case['cycles'])
+    case['faults'] += hole_faults
     return case
 
 
@@ -63,6 +69,10 @@ def run(case, res):
     if case.get('dut_is_working'):
         pyrtl.set_working_block(b.block, no_sanity_check=True)
     ref = world.ref_for(script, init)
+    if case.get('assert_wire') in b.wires:
+        with pyrtl.set_working_block(b.block, no_sanity_check=True):
+            pyrtl.rtl_assert(b.wires[case['assert_wire']], common.PlantedAssertion('planted'),
+                             block=b.block)
     sim = world.make_sim('sim', b, init)
     # a second pyrtl.Simulation of the same block, stepped alternately with the first: state
     # shared between instances (class attributes, default arguments) would show in either
@@ -81,7 +91,7 @@ def run(case, res):
         for f in faults.get(ci, []):
             if f['kind'] == 'reject_step':
                 v = world.apply_reject(sim, f, cyc, 'sim')
-                res.faults.hit('reject_step')
+                res.faults.hit('reject_step' if f['value'] != 'rom_hole' else 'rom_hole_read')
                 res.log.log('fault', 'reject_step', f['wire'], v is None)
                 if v:
                     return v
@@ -94,9 +104,17 @@ def run(case, res):
         except DoubleWrite:
             res.probes.hit('undefined_double_write')
             break
-        sim.step(dict(cyc))
+        except common.RomHole:
+            raise common.Inconclusive('a cycle of the tape reads a ROM hole')
+        try:
+            sim.step(dict(cyc))
+        except common.PlantedAssertion:
+            res.faults.hit('assertion_fired_and_caught')
         if sim2 is not None:
-            sim2.step(dict(cyc))
+            try:
+                sim2.step(dict(cyc))
+            except common.PlantedAssertion:
+                pass
             for name, ev in exp.items():
                 if sim2.inspect(name) != ev:
                     return Violation('wire_value', 'second_instance_value_mismatch',
@@ -185,6 +203,10 @@ def candidates(case):
         c = copy.deepcopy(case)
         c['dut_is_working'] = False
         yield c
+    if case.get('assert_wire'):
+        c = copy.deepcopy(case)
+        c['assert_wire'] = None
+        yield c
     if case.get('second_instance'):
         c = copy.deepcopy(case)
         c['second_instance'] = False
@@ -195,7 +217,8 @@ def candidates(case):
         c['init'] = shrink.remap_init(case['init'], s)
         c['cycles'] = shrink.remap_cycles(case['cycles'], s)
         ins = {w['n'] for w in s['wires'] if w['k'] == 'I'}
-        c['faults'] = [f for f in c['faults'] if f['kind'] != 'reject_step' or f['wire'] in ins]
+        c['faults'] = [f for f in c['faults'] if f['kind'] != 'reject_step' or f['wire'] in ins
+                       or (f.get('value') == 'rom_hole' and set(f['inputs']) <= ins)]
         s.pop('_memremap', None)
         yield c
     if case['init'].get('regs') or case['init'].get('mems') or case['init'].get('default'):
